@@ -163,3 +163,12 @@ package protectedmemory
 //@   ensures [C11:no-callback-means-an-error] !called(action, 1) ==> err != nil
 //@   ensures [C11:error-is-the-callback-s-unless-release-fails] called(action, 1) ==> (err == ret(action, 1, 0) || err != nil)
 //@   ensures [C11:lock-released] *s.secretInternal.rw == 0
+
+// the finalizer closes through Close, which waits for readers in flight (added after seed C11-e)
+//@ func (*secretInternal).Finalize
+//@   names s
+//@   facet C11
+//@   opt no-frame
+//@   requires wfS(s) && *s.rw == 0
+//@   ensures [C11:lock-released] *s.rw == 0
+//@   ensures [C11:later-access-refused] s.closing
